@@ -148,6 +148,10 @@ def _trees(case):
                 outcomes.add(key[:2])
                 desc = "y=%r model=%s depth=%r" % (ys, mk, depth)
                 Q = _queries(t, d, lo=float(X.min()) - 1.0, hi=float(X.max()) + 1.0)
+                # scikit-learn compares float32(x) with the float64 threshold: queries are made float32-exact, so the box
+                # membership below is computed on exactly the values the tree sees (random extra-tree thresholds are not
+                # float32-representable, so "on the threshold" only exists for the midpoint thresholds of the grid)
+                Q = Q.astype(numpy.float32).astype(numpy.float64)
                 ref = model.apply(Q)
                 cnt += len(Q)
                 if t.node_count > 1:
